@@ -58,6 +58,8 @@ type drv struct {
 	base  map[string]int
 	up    *upstream
 	nameCases int
+	dirty     bool
+	reported  map[string]bool
 }
 
 var t0 = time.Now()
@@ -145,8 +147,17 @@ func (d *drv) rest(what string) { d.restOpt(what, true) }
 func (d *drv) restLight(what string) { d.restOpt(what, false) }
 
 func (d *drv) restOpt(what string, coq bool) {
-	q := quiesce(d.base, d.fxs()...)
+	wait := 6 * time.Second
+	if d.dirty { // something is left for good already: do not wait for it again and again
+		wait = 300 * time.Millisecond
+	}
+	q := quiesce(d.base, wait, d.fxs()...)
 	for _, det := range q.detail {
+		d.dirty = true
+		if d.reported[det] {
+			continue
+		}
+		d.reported[det] = true
 		kind := det
 		if i := strings.IndexAny(kind, ":\n"); i > 0 {
 			kind = kind[:i]
@@ -295,7 +306,7 @@ func abuseDriver(seed uint64, n int, outV, outJSON string, args []string) {
 	log.SetOutput(io.Discard)
 	// no garbage collection between quiescence checks: a forgotten *os.File must not be closed by its
 	// finaliser before /proc/self/fd is read (the memory limit keeps the process bounded)
-	d := &drv{r: &Rng{S: seed}, rep: NewReport("abuse", seed)}
+	d := &drv{r: &Rng{S: seed}, rep: NewReport("abuse", seed), reported: map[string]bool{}}
 	d.rep.Rule = "hostile requests to every endpoint: ByteStream Read/Write/QueryWriteStatus (resource names of all shapes, offsets/limits incl. int64 extremes, message sequences with early aborts, half-close without messages, changed names, zstd garbage/truncated/trailing), CAS FindMissingBlobs/BatchUpdateBlobs/BatchReadBlobs/GetTree/SpliceBlob/SplitBlob (nil and malformed digests, nil elements in-process, stored ill-formed Directories, missing/overflowing/truncated chunks), ActionCache Get/Update (optional fields absent at every depth, nil elements in-process, stored garbage), Capabilities, Asset FetchBlob/FetchDirectory (hostile URIs and qualifiers against a local upstream), HTTP GET/HEAD/PUT and other methods (URL shapes, X-Digest-SizeBytes garbage, Content-Encoding variants, missing/wrong Content-Length, aborted bodies, failing response writers, JSON bodies), and byte-level mutation of the on-disk files of stored blobs read through every read path; both storage modes. Non-trivial = request answered without an error status; distinct = distinct request texts among the Coq cases"
 	d.fz, d.fu = newFx("zstd"), newFx("uncompressed")
 	phase("fixtures")
@@ -313,7 +324,7 @@ func abuseDriver(seed uint64, n int, outV, outJSON string, args []string) {
 	debug.SetMemoryLimit(2 << 30)
 	time.Sleep(50 * time.Millisecond)
 	d.base, _ = brGoroutines()
-	if q := quiesce(d.base, d.fxs()...); len(q.detail) > 0 {
+	if q := quiesce(d.base, 6*time.Second, d.fxs()...); len(q.detail) > 0 {
 		d.fail("the idle server is not at rest", strings.Join(q.detail, "\n"))
 	}
 
